@@ -363,6 +363,15 @@ def constructor(classes: Classes, cls: str):
     return c
 
 
+def exact_arity(contract, n_positional, what):
+    """an assumed contract speaks about ONE call shape: a call with other arguments is not covered by it (undecided, never accepted)"""
+    def c(eng, st, args, kw):
+        if len(args) != n_positional or kw:
+            raise E.Undecided(f"{what} is called with {len(args) - 1} positional and {sorted(kw)} keyword arguments: outside its assumed contract")
+        return contract(eng, st, args, kw)
+    return c
+
+
 def dispatch_method(impls):
     """non-deterministic choice among the implementations of the static class and of its overriding subclasses (over-approximation)"""
     def c(eng, st, args, kw):
